@@ -23,6 +23,11 @@ func runC18(x *mc.X) {
 	state := mc.Pick(x, "state", c18States)
 	extra := x.Choose("extra-directives", 64)
 	spelling := mc.Pick(x, "spelling", []string{"canonical", "upper", "second-line", "extension-mixed", "after-quoted-backslash"})
+	// the directive governs every request, not only the ones the cache can answer (RFC 9111 §5.2.1.7)
+	kind := mc.Pick(x, "request-kind", []string{"GET", "HEAD", "GET+Range", "POST", "GET (Method left empty)", "GET+If-None-Match"})
+	if kind != "GET" && extra != 0 {
+		x.Skip()
+	}
 	w := world.New(world.Opt{})
 	defer w.Close()
 
@@ -100,6 +105,16 @@ func runC18(x *mc.X) {
 		}
 	}
 	req := world.Req("GET", U)
+	switch kind {
+	case "HEAD", "POST":
+		req.Method = kind
+	case "GET+Range":
+		req.Header.Set("Range", "bytes=0-3")
+	case "GET (Method left empty)":
+		req.Method = ""
+	case "GET+If-None-Match":
+		req.Header.Set("If-None-Match", `"client"`)
+	}
 	oic := "only-if-cached"
 	switch spelling {
 	case "canonical":
@@ -137,8 +152,8 @@ func runC18(x *mc.X) {
 	logObs(x, fmt.Sprintf("GET Cache-Control=%q", req.Header.Values("Cache-Control")), o)
 	world.Advance(secs(30)) // background work, if any, becomes visible
 	calls := w.Origin.CallsSince(n0)
-	x.Nontrivial(state + "/" + strings.Join(ds, "+"))
-	x.State(state, obsClass(o), fmt.Sprint(len(calls)))
+	x.Nontrivial(state + "/" + strings.Join(ds, "+") + ifs(kind != "GET", "/"+kind))
+	x.State(state, kind, obsClass(o), fmt.Sprint(len(calls)))
 	x.Note(obsClass(o))
 	x.Sample(map[string]any{"state": state, "request_cache_control": req.Header.Values("Cache-Control"), "observed": o.String(), "origin_calls": len(calls)})
 
@@ -146,7 +161,7 @@ func runC18(x *mc.X) {
 		return // C10's business
 	}
 	if len(calls) > 0 {
-		x.Failf(fmt.Sprintf("origin contacted: state=%s extras=%s spelling=%s", state, sigExtras(ds), spelling),
+		x.Failf(fmt.Sprintf("origin contacted: state=%s extras=%s spelling=%s%s", state, sigExtras(ds), spelling, ifs(kind != "GET", " request="+kind)),
 			"only-if-cached request caused %d origin call(s): %v", len(calls), calls[0])
 		return
 	}
@@ -154,6 +169,16 @@ func runC18(x *mc.X) {
 		return
 	}
 	if o.Status == http.StatusGatewayTimeout && o.Tok == "" {
+		return
+	}
+	if kind == "HEAD" && stored != nil && len(o.Body) == 0 && o.HdrTok == stored.HdrTok {
+		o.Tok = stored.Tok // the header section of the stored response, judged like the response itself
+	}
+	if kind == "GET+If-None-Match" && o.Status == http.StatusNotModified {
+		return // the cache may evaluate the client's precondition itself
+	}
+	if (kind == "GET+Range" || kind == "POST") && stored != nil && (o.Tok == stored.Tok || o.HdrTok == stored.HdrTok) {
+		x.Failf("stored response handed to a request that is not a plain GET ("+kind+")", "state %s: %s", state, o.String())
 		return
 	}
 	// served a stored response: it must be one the other rules allow without validation.
